@@ -70,8 +70,14 @@ Cmp(t) ==   /\ pc[t] = "cmp"
 Chg2(t) ==  /\ pc[t] = "chg2"
             /\ IF FlagFirst THEN last' = loc[t].mt /\ UNCHANGED cooked
                ELSE cooked' = FALSE /\ UNCHANGED last
-            /\ Go(t, IF FlagFirst THEN "check.last_read_set" ELSE "check.uncooked", "test")
+            /\ Go(t, IF FlagFirst THEN "check.last_read_set" ELSE "check.uncooked", "stale")
             /\ UNCHANGED <<fver, auto, pub, loc, result>>
+\* a caller that has seen the new modification stamp cooks the file itself, whatever the shared flag says by now
+\* (a concurrent cook of an earlier version may have set it again)
+Stale(t) == /\ pc[t] = "stale"
+            /\ loc' = [loc EXCEPT ![t].body = fver]
+            /\ Go(t, "check.read", "cookbegin")
+            /\ UNCHANGED <<fver, auto, last, cooked, pub, result>>
 Test(t) ==  pc[t] = "test" /\ TestBody(t)
 CookBegin(t) == pc[t] = "cookbegin" /\ Go(t, "cook.begin", "compiled")
                 /\ UNCHANGED <<fver, auto, last, cooked, pub, loc, result>>
@@ -87,7 +93,7 @@ Use(t) ==       /\ pc[t] = "use" /\ result' = [result EXCEPT ![t] = pub]
                 /\ Go(t, "use", "done")
                 /\ UNCHANGED <<fver, auto, last, cooked, pub, loc>>
 
-Next == UNCHANGED fresh0 /\ \E t \in Threads : Begin(t) \/ Mtime(t) \/ Cmp(t) \/ Chg2(t) \/ Test(t) \/ CookBegin(t) \/ Compiled(t)
+Next == UNCHANGED fresh0 /\ \E t \in Threads : Begin(t) \/ Mtime(t) \/ Cmp(t) \/ Chg2(t) \/ Stale(t) \/ Test(t) \/ CookBegin(t) \/ Compiled(t)
                               \/ Publish(t) \/ Flag(t) \/ Use(t)
 Spec == Init /\ [][Next]_vars
 
